@@ -1,7 +1,7 @@
 """Property registry: which contract modules serve which property, and what
 each claim leaves unverified (text copied into every evidence file)."""
 
-ALL_MODULES = ["contracts.c17", "contracts.c12", "contracts.c13", "contracts.c18", "contracts.c09", "contracts.c05", "contracts.c16", "contracts.c04", "contracts.c02", "contracts.c11", "contracts.c19", "contracts.c03"]
+ALL_MODULES = ["contracts.c17", "contracts.c12", "contracts.c13", "contracts.c18", "contracts.c09", "contracts.c05", "contracts.c16", "contracts.c04", "contracts.c02", "contracts.c11", "contracts.c19", "contracts.c03", "contracts.c07"]
 
 SPECS = {
     "C17": {
@@ -87,5 +87,12 @@ SPECS = {
         "level_note": "Trusted: onnx_ir's NameFixPass for SSA uniqueness of the final model, onnx.checker / strict shape inference / ONNX Runtime loading (external programs), scoping of Loop/If captures built by the control-flow plugins. The counter-sharing obligation in _lower_and_call is structural (AST data flow), not a solver proof.",
         "design_ref": "DESIGN.md §4.3",
         "unverified_part": "whole-model well-formedness (checker, strict inference, ORT), make_subgraph_context prefixes, _handle_initializer_append in function mode, FunctionScope.to_ir_function imports, Loop/If capture scoping.",
+    },
+    "C07": {
+        "modules": ALL_MODULES,
+        "level_text": "Partial claim, mostly structural. Decided on the real source: every path through the parameter loop of FunctionPlugin._lower_and_call (paths enumerated completely, including except handlers) appends exactly one capture item carrying the parameter name; the registry key is FunctionKey(name, (shape, str(dtype)) of every invar, capture items); the definition and every call site are fed the same base_inputs + param_values; the unique-instance fingerprint contains repr(treedef) unmodified and every leaf. Proved with the solver (shared with C03/C11): _allocate_friendly_name issues pairwise distinct identifiers and reuses the context's counter dict, the child scope shares it, FunctionScope.__init__ mirrors opset/precision/normalization of the parent.",
+        "level_note": "These obligations are necessary conditions of 'bodies are shared only when equal'; the key's discriminating power rests on stated, unchecked assumptions: hash(bytes)/sha1 injective, repr(treedef) separates static configuration, id(callee) identifies a live instance. 'Decorated export == undecorated export == JAX' is C01 territory and not claimed.",
+        "design_ref": "DESIGN.md §4.7",
+        "unverified_part": "semantic equality of shared bodies, FunctionScope.begin/end mirroring, optimizer treatment of function bodies, weak-reference liveness of instances, the numerical transparency of function boundaries.",
     },
 }
